@@ -165,6 +165,39 @@ def gen_doc(rng, n, with_lists=True):
     return doc
 
 
+def marker_walk(rng, n):
+    """A run of list lines whose markers wander: same, one level deeper, skipping a level, back to a prefix, other bullet."""
+    m = "".join(rng.choice("*#") for _ in range(rng.randint(1, 2)))
+    out = [m]
+    for _ in range(n - 1):
+        r = rng.random()
+        prev = out[-1]
+        if r < 0.2:
+            m = prev
+        elif r < 0.4 and len(prev) < 4:
+            m = prev + rng.choice("*#")
+        elif r < 0.55 and len(prev) < 3:
+            m = prev + rng.choice("*#") + rng.choice("*#")
+        elif r < 0.85:
+            # back to a marker used earlier in this run (typically a prefix)
+            m = rng.choice(out)
+        elif len(prev) > 1:
+            m = prev[:rng.randint(1, len(prev) - 1)]
+        else:
+            m = rng.choice("*#")
+        out.append(m[:4])
+    return out
+
+
+def walk_doc(rng):
+    doc = [["H", rng.randint(2, 4), 1]]
+    lid = 0
+    for m in marker_walk(rng, rng.randint(3, 8)):
+        lid += 1
+        doc.append(["LI", m, lid])
+    return doc
+
+
 def exhaustive_headings(maxlen):
     for n in range(1, maxlen + 1):
         for levels in itertools.product(range(1, 7), repeat=n):
@@ -228,6 +261,8 @@ def run(run):
         docs.append(gen_doc(rng, rng.randint(1, 12)))
     for _ in range(200 if quick else 3000):
         docs.append(gen_doc(rng, rng.randint(1, 10), with_lists=False))
+    for _ in range(700 if quick else 10000):
+        docs.append(walk_doc(rng))
     texts = [render(d, rng) for d in docs]
     chunks = [texts[i:i + 200] for i in range(0, len(texts), 200)]
     res = lib.run_impl("parse_many", [{"texts": c} for c in chunks], shards=lib.NCPU)
